@@ -578,7 +578,14 @@ def c10_10(ctx):
     return out
 
 
+def c10_11(ctx):
+    """no validation / signing result of the PSBT layer is remembered under a key that leaves out one of its inputs"""
+    from sa.memo import memo_obligation
+    return memo_obligation(ctx, ["psbt"], "a PSBT field validated once would be accepted with other contents")
+
+
 OBLIGATIONS = [
+    ("C10.11", "MEMO", c10_11),
     ("C10.10", "COVER loops", c10_10),
     ("C10.1", "LAYOUT writer↔reader", c10_1),
     ("C10.2", "LAYOUT per key type", c10_2),
